@@ -129,6 +129,23 @@ def check_walkfiles(ctx, out, rule="C12.walkfiles"):
                 if P.has_call(labs, r"Path::strip_prefix$|Path::file_name$|Path::(parent|components|iter)$"):
                     out.viol(rule, "%s|relative-is-dir" % rule, ctx.where(cb, t["span"]),
                              "`is_dir()` is asked about a path that was made relative to the repository root: the question is answered against the current directory, so the walk yields different files depending on where inside the repository blockwatch is started")
+    # ... also when the path was made relative by an earlier stage of the pipeline (`.map(|e| strip_prefix..)
+    # .filter(|p| !p.is_dir())`): the stage that asks `is_dir` receives what the stages before it produced
+    E = ctx.expr(wb)
+    for bi, t in wb.calls():
+        if callee_matches(t, r"Iterator::(filter|filter_map|take_while|skip_while|map_while)$") and len(t["args"]) == 2:
+            clo = None
+            for x in walk(E.operand(t["args"][1])):
+                if x[0] == "agg" and str(x[1]).startswith("closure:"):
+                    clo = ctx.facts.body(x[1][8:])
+            if clo is None or not any(callee_matches(tt, ISDIR) for cb2 in ctx.facts.with_descendants(clo) for _, tt in cb2.calls()):
+                continue
+            for x in walk(E.operand(t["args"][0])):
+                if x[0] == "agg" and str(x[1]).startswith("closure:"):
+                    up = ctx.facts.body(x[1][8:])
+                    if up is not None and any(callee_matches(tt, r"Path::strip_prefix$|Path::file_name$") for cb2 in ctx.facts.with_descendants(up) for _, tt in cb2.calls()):
+                        out.viol(rule, "%s|relative-is-dir" % rule, ctx.where(wb, t["span"]),
+                                 "`is_dir()` is asked in a pipeline stage that comes after the stage making the path relative to the repository root: the question is answered against the current directory, so the walk yields different files depending on where inside the repository blockwatch is started")
     found = False
     for cb in ctx.facts.with_descendants(wb):
         if cb.kind != "Closure":
@@ -449,6 +466,9 @@ def run(ctx, out, tier):
     check_treewalk(ctx, out, rule="C12.walk")
     from rules.C01 import check_skipfile
     check_skipfile(ctx, out, rule="C12.skipfile")
+    # the scanner resumes right behind the tag it consumed (a tag after it is neither skipped nor read twice)
+    from rules.C10 import check_tagoffset
+    check_tagoffset(ctx, out, rule="C12.tagoffset")
     return meta()
 
 
